@@ -31,8 +31,24 @@ def classify(flipped, sites):
     return None
 
 
+# hand-written bases: function-typed LOCAL definitions whose value is not a function literal (a call that returns a
+# function, with a function literal or an outer variable of the same name among its arguments), locals annotated with
+# function types inside closures and loops
+_PRE = "print: fn *X -> void : external\n"
+HAND = [
+    _PRE + "twice :: fn g: fn int -> int -> fn int -> int do\n    ret fn x: int -> int do\n        ret g(g(x))\n    end\nend\n"
+    "step :: fn x: int -> int do\n    ret x + 1\nend\nstart :: fn do\n    step«A1|var;n»: fn int -> int :«|» ::«/A1» twice(step)\n    print(step(1))\nend\n",
+    _PRE + "twice :: fn g: fn int -> int -> fn int -> int do\n    ret fn x: int -> int do\n        ret g(g(x))\n    end\nend\n"
+    "start :: fn do\n    inc2«A1|var;n»: fn int -> int :«|» ::«/A1» twice(fn y«A2|param;g»: int«|»«/A2» ->«A3|ret;g» int«|»«/A3» do\n        ret y + 1\n    end)\n    print(inc2(1))\nend\n",
+    _PRE + "mk :: fn k: int -> fn -> int do\n    ret fn -> int do\n        ret k\n    end\nend\n"
+    "start :: fn do\n    h := mk(1)\n    i := 0\n    loop i < 2 do\n        i += 1\n        h«A1|var;n»: fn -> int =«|» :=«/A1» mk(h() + i)\n        print(h())\n    end\n    print(h())\nend\n",
+    _PRE + "apply :: fn f: fn int -> int, v: int -> int do\n    ret f(v)\nend\nid :: fn f: fn int -> int -> fn int -> int do\n    ret f\nend\n"
+    "g :: fn x: int -> int do\n    ret x * 2\nend\nstart :: fn do\n    w :: fn -> int do\n        g«A1|var;n»: fn int -> int :«|» ::«/A1» id(g)\n        ret apply(g, 4)\n    end\n    print(w())\n    print(g(1))\nend\n",
+]
+
+
 def sweep(ctx):
-    bs = base.bases(ctx, base.nbases(ctx), salt="c08base")
+    bs = base.bases(ctx, base.nbases(ctx), salt="c08base") + [(t, None) for t in HAND]
     lines, meta = [], []
     nsites = collections.Counter()
     kinds = collections.Counter()
